@@ -450,8 +450,9 @@ class Melody(Task):
         return np.array(out)
 
     def evaluate(self, inp, **kw):
-        return mir_eval.melody.evaluate(farr(inp["ref"][0]), self._hz(inp["ref"][1]),
-                                        farr(inp["est"][0]), self._hz(inp["est"][1]), **kw)
+        hz = inp.get("hz") or {}
+        return mir_eval.melody.evaluate(farr(inp["ref"][0]), self._hz(inp["ref"][1]) * float(F(hz.get("ref", 1))),
+                                        farr(inp["est"][0]), self._hz(inp["est"][1]) * float(F(hz.get("est", 1))), **kw)
 
 
 class Multipitch(Task):
@@ -516,8 +517,10 @@ class Multipitch(Task):
         return {"ref": a, "est": [list(a[0]), [list(f) for f in a[1]]]}
 
     def evaluate(self, inp, **kw):
-        rf = [np.array([midi_hz(F(m)) for m in f]) for f in inp["ref"][1]]
-        ef = [np.array([midi_hz(F(m)) for m in f]) for f in inp["est"][1]]
+        hz = inp.get("hz") or {}
+        a, b = float(F(hz.get("ref", 1))), float(F(hz.get("est", 1)))
+        rf = [np.array([midi_hz(F(m)) for m in f]) * a for f in inp["ref"][1]]
+        ef = [np.array([midi_hz(F(m)) for m in f]) * b for f in inp["est"][1]]
         return mir_eval.multipitch.evaluate(farr(inp["ref"][0]), rf, farr(inp["est"][0]), ef, **kw)
 
     def shift(self, inp, c):
@@ -600,9 +603,10 @@ class Transcription(Task):
         return iv, p
 
     def evaluate(self, inp, **kw):
+        hz = inp.get("hz") or {}
         ri, rp = self._split(inp["ref"])
         ei, ep = self._split(inp["est"])
-        return mir_eval.transcription.evaluate(ri, rp, ei, ep, **kw)
+        return mir_eval.transcription.evaluate(ri, rp * float(F(hz.get("ref", 1))), ei, ep * float(F(hz.get("est", 1))), **kw)
 
     def shift(self, inp, c):
         return {s: [[S(F(a) + c), S(F(b) + c), m] for a, b, m in inp[s]] for s in ("ref", "est")}
